@@ -256,6 +256,17 @@ class Function:
             seen += 1
         return n
 
+    def walk_resolved(self, n, _depth=0):
+        """walk(n), following {"k":"x"} references into the sub-expression they stand for"""
+        for y in walk(n):
+            if y.get("k") == "x" and _depth < 6:
+                r = self.resolve_x(y)
+                if r is not None and r is not y and r.get("k") != "x":
+                    for z in self.walk_resolved(r, _depth + 1):
+                        yield z
+                    continue
+            yield y
+
     # ---- CFG ------------------------------------------------------------------------
     def succs(self, bid):
         return [s for s in self.blocks[bid]["succ"] if s is not None]
